@@ -386,6 +386,8 @@ class Lowerer:
                 return Frac.of(R, R.vpoly(av))
         if u.is_const() and u.const_value() == 0 and op in ("ASIN", "ATAN"):
             return Frac.of(R, 0)
+        if u.is_const() and u.const_value() == 1 and op == "ACOS":
+            return Frac.of(R, 0)
         one = Frac.of(R, 1)
         u_nonneg = (not u.den or all(R.known_nonneg(f) for f in u.den)) and R.known_nonneg(u.num)
         i = R.var(f"{op.lower()}{len(self.itrig)}", nonneg=(op == "ACOS" or (op in ("ATAN", "ASIN") and u_nonneg)))
